@@ -1,23 +1,27 @@
 #!/bin/bash
-# usage: confirm_seed.sh <worktree> <seed dir (patch.diff, demo.c, run.txt)> <out dir>
-# Confirms in the scratch worktree: demo passes on HEAD, patch applies and compiles, demo fails with the patch,
-# the repository's test suite (make check) still passes with the patch (82 PASS, only check-parsing.sh failing as in the baseline).
-WT=$1; SD=$2; OUT=$3
+# usage: confirm_seed.sh <worktree> <seed dir inside the worktree (_seed/mN)> <out dir>
+# Confirms in the scratch worktree: the tree builds, the demo passes on HEAD, the patch applies and the tree still
+# builds, the demo fails with the patch, and the repository's test suite (make check) still passes with the patch
+# (82 PASS; check-parsing.sh fails in the baseline too).
+WT=$1; SD=$2; OUT=$3; J=${J:-3}
 mkdir -p "$OUT"; cd "$WT" || exit 2
 git checkout -q -- . 2>/dev/null
 log="$OUT/confirm.log"; : > "$log"
-build_demo() {  # $1 = output binary
-  if [ -f "$SD/demo.c" ]; then
-    gcc -w -I skeletons -I . -o "$1" "$SD/demo.c" $(ls skeletons/*.c | grep -v converter-example) -lm >> "$log" 2>&1
-  else return 3; fi
+if [ ! -f Makefile ]; then (autoreconf -iv && ./configure) > "$OUT/configure.log" 2>&1; fi
+nice make -j$J > "$OUT/build0.log" 2>&1
+run_demo() {
+  if [ -f "$SD/demo.sh" ]; then sh "$SD/demo.sh" >> "$log" 2>&1
+  else
+    extra=""; [ -f "$SD/T.c" ] && extra="$SD/T.c"
+    gcc -w -I skeletons -I . -I "$SD" -o "$OUT/demo.$1" "$SD/demo.c" $extra $(ls skeletons/*.c | grep -v converter-example) -lm >> "$log" 2>&1 && "$OUT/demo.$1" >> "$log" 2>&1
+  fi
 }
-run_demo() { if [ -f "$SD/demo.sh" ]; then bash "$SD/demo.sh" >> "$log" 2>&1; else build_demo "$OUT/demo.$1" && "$OUT/demo.$1" >> "$log" 2>&1; fi; }
 echo "== demo on HEAD" >> "$log"; run_demo orig; R0=$?
-git apply "$SD/patch.diff" >> "$log" 2>&1 || { echo "patch does not apply" >> "$log"; echo "RESULT apply-failed" > "$OUT/result.txt"; exit 1; }
+git apply "$SD/patch.diff" >> "$log" 2>&1 || { echo "RESULT apply-failed" | tee "$OUT/result.txt"; exit 1; }
+echo "== make with patch" >> "$log"; nice make -j$J > "$OUT/build1.log" 2>&1; RB=$?
 echo "== demo with patch" >> "$log"; run_demo patched; R1=$?
-if [ ! -f Makefile ]; then (autoreconf -iv && ./configure) >> "$OUT/build.log" 2>&1; fi
-echo "== make" >> "$log"; nice make -j4 >> "$OUT/build.log" 2>&1; RB=$?
-echo "== make check" >> "$log"; nice make -k check -j4 > "$OUT/check.log" 2>&1
+echo "== make check with patch" >> "$log"; nice make -k check -j$J > "$OUT/check.log" 2>&1
 NP=$(grep -c "^PASS" "$OUT/check.log"); FL=$(grep -E "^(FAIL|ERROR)" "$OUT/check.log" | sort -u | tr '\n' ' ')
 git checkout -q -- .
+nice make -j$J > /dev/null 2>&1
 echo "RESULT demo_orig_rc=$R0 demo_patched_rc=$R1 build_rc=$RB tests_pass=$NP tests_fail=[$FL]" | tee "$OUT/result.txt"
